@@ -128,3 +128,46 @@ package badger
 //@   ensures [success-means-committed] err == nil ==> bd_commits == old(bd_commits)+1
 //@   ensures [always-discarded-once] bd_discards == old(bd_discards)+1
 //@   loop 0 invariant [nothing-committed-before-every-operation-ran] bd_commits == old(bd_commits) && bd_discards == old(bd_discards) && wf_batch(b)
+
+// ---- the iterator ----
+// bi_valid / bi_key: validity and current key of the client iterator (ghost; one iterator is live per
+// verified function)
+//@ ghost bi_valid Bool
+//@ ghost bi_key Slice
+//@ func @github.com/dgraph-io/badger.(*Iterator).Valid() (result)
+//@   assumed
+//@   pure
+//@   ensures [def] result == bi_valid
+//@ func @github.com/dgraph-io/badger.(*Iterator).Item() (item)
+//@   assumed
+//@   pure
+//@   ensures [current] item != nil
+//@ func @github.com/dgraph-io/badger.(*Item).Key() (k)
+//@   assumed
+//@   pure
+//@   ensures [current] k == bi_key
+//@ func @github.com/dgraph-io/badger.(*Iterator).Next()
+//@   assumed
+//@   modifies ghost.bi_valid ghost.bi_key
+//@ func @github.com/dgraph-io/badger.(*Iterator).Seek(key)
+//@   assumed
+//@   modifies ghost.bi_valid ghost.bi_key
+
+// the end bound is exclusive in the direction of travel; a limit ends the iteration after that many keys
+//@ func (*iter).inRange() (result)
+//@   props C11 C12
+//@   requires i != nil && i.iIter != nil
+//@   modifies iter.counter
+//@   ensures [the-requested-side-of-the-end-bound] result ==> ite(i.reverse, bytes_cmp(bi_key, i.end) > 0, bytes_cmp(bi_key, i.end) < 0)
+//@   ensures [limit] old(i.limit != 0 && i.counter >= i.limit) ==> !result
+//@   ensures [frame] i.end == old(i.end) && i.reverse == old(i.reverse) && i.limit == old(i.limit)
+
+// Next hands out only keys on the requested side of the end bound, the first one included; the end of
+// the iteration (or an error) is final
+//@ func (*iter).Next(ctx) (err)
+//@   props C11 C12
+//@   requires i != nil && i.iIter != nil
+//@   modifies iter.counter iter.err iter.seeked ghost.bi_valid ghost.bi_key
+//@   ensures [only-keys-of-the-interval] err == nil ==> bi_valid && ite(i.reverse, bytes_cmp(bi_key, i.end) > 0, bytes_cmp(bi_key, i.end) < 0)
+//@   ensures [the-end-is-final] old(i.err) != nil ==> err == old(i.err)
+//@   ensures [an-end-is-remembered] err != nil ==> i.err == err
